@@ -22,12 +22,69 @@ def exc_lookup(exceptions, key):
     return None
 
 
-def report_sites(ctx, rule, sites, exceptions, seen, note_prefix=""):
-    """sites with keys assigned -> ok / exception / violation"""
-    prog = ctx.prog
+def _split_key(key):
+    """rule|function path|rest  ->  (rule, crate, rest without a trailing |<ordinal>)"""
+    parts = key.split("|")
+    if len(parts) < 3:
+        return None
+    crate = re.sub(r"^<", "", parts[1]).split("::")[0]
+    rest = parts[2:]
+    if rest and rest[-1].isdigit():
+        rest = rest[:-1]
+    return parts[0], crate, "|".join(rest)
+
+
+def moved_lookup(exceptions, key, used):
+    """an exception written for the same construct on the same expression in another function of the same crate, whose own site no longer exists: the code was moved
+    (a function split or renamed), the expression and therefore the written reason are the same.  One exception covers one site."""
+    sk = _split_key(key)
+    if sk is None:
+        return None
+    for k in exceptions:
+        if k in used:
+            continue
+        if k.endswith("*"):
+            pk = _split_key(k[:-1] + "x")
+            if pk is not None and pk[0] == sk[0] and pk[1] == sk[1] and sk[2].startswith(pk[2][:-1]):
+                return k
+            continue
+        if _split_key(k) == sk:
+            return k
+    return None
+
+
+def _loose(sk):
+    """(rule, crate, 'unwrap|F(args)') -> (rule, crate, 'unwrap|F(*)') for unwrap/expect of a call result; None otherwise"""
+    parts = sk[2].split("|", 1)
+    if len(parts) != 2 or parts[0] not in ("unwrap", "expect"):
+        return None
+    m = re.match(r"^([A-Za-z_][\w:<>]*)\(", parts[1])
+    if not m or not parts[1].endswith(")"):
+        return None
+    return (sk[0], sk[1], "%s|%s(*)" % (parts[0], m.group(1)))
+
+
+def moved_lookup_loose(exceptions, key, used):
+    """as moved_lookup, for `F(<expr>).unwrap()/expect()` whose argument is now spelled differently (a parameter of the extracted helper instead of the
+    caller's expression): same rule, same crate, same construct on the result of the same function, and the excepted site itself is gone"""
+    sk = _split_key(key)
+    lk = _loose(sk) if sk else None
+    if lk is None:
+        return None
+    for k in exceptions:
+        if k in used or k.endswith("*"):
+            continue
+        sk2 = _split_key(k)
+        if sk2 and _loose(sk2) == lk:
+            return k
+    return None
+
+
+def _report(ctx, rule, keyed, exceptions, violation_text):
+    """keyed: [(key, site)] -> ok / exception / violation; exact (or prefix-pattern) exceptions first, then exceptions whose site moved within the crate"""
     used = set()
-    for s in sites:
-        key = sanitize(s["key"])
+    pending = []
+    for key, s in keyed:
         loc = s["fn"].loc(s["line"])
         if s["guard"]:
             ctx.ok(rule, key, s["guard"], loc)
@@ -36,9 +93,23 @@ def report_sites(ctx, rule, sites, exceptions, seen, note_prefix=""):
             used.add(ek)
             ctx.exception(rule, key, exceptions[ek], loc)
         else:
-            chain = ctx.cg.pretty_chain(seen, s["fn"].id) if s["fn"].id in seen else ""
-            ctx.violation(rule, key, "%sunguarded may-panic site `%s` on %s; reached via %s"
-                          % (note_prefix, s["construct"], s["origin"][:120], chain), loc)
+            pending.append((key, s, loc))
+    for key, s, loc in pending:
+        ek = moved_lookup(exceptions, key, used) or moved_lookup_loose(exceptions, key, used)
+        if ek is not None:
+            used.add(ek)
+            ctx.exception(rule, key, exceptions[ek] + " [same construct on the same expression as `%s`, whose site is gone: the code was moved]" % ek.split("|")[1][-60:], loc)
+        else:
+            ctx.violation(rule, key, violation_text(s), loc)
+    return used
+
+
+def report_sites(ctx, rule, sites, exceptions, seen, note_prefix=""):
+    """sites with keys assigned -> ok / exception / violation"""
+    def text(s):
+        chain = ctx.cg.pretty_chain(seen, s["fn"].id) if s["fn"].id in seen else ""
+        return "%sunguarded may-panic site `%s` on %s; reached via %s" % (note_prefix, s["construct"], s["origin"][:120], chain)
+    used = _report(ctx, rule, [(sanitize(s["key"]), s) for s in sites], exceptions, text)
     stale = [k for k in exceptions if k not in used and k.startswith(rule + "|")]
     if stale:
         ctx.note("stale exception entries (site no longer present): %s" % stale[:10])
@@ -46,20 +117,9 @@ def report_sites(ctx, rule, sites, exceptions, seen, note_prefix=""):
 
 
 def report_divs(ctx, rule, sites, exceptions, seen):
-    used = set()
-    for s in sites:
-        key = s["key"]
-        loc = s["fn"].loc(s["line"])
-        if s["guard"]:
-            ctx.ok(rule, key, s["guard"], loc)
-        elif exc_lookup(exceptions, key):
-            ek = exc_lookup(exceptions, key)
-            used.add(ek)
-            ctx.exception(rule, key, exceptions[ek], loc)
-        else:
-            ctx.violation(rule, key, "float division whose divisor `%s` is not shown non-zero by a constant, a clamp or a dominating comparison: "
-                          "inf/NaN result when it is zero" % s["desc"][:120], loc)
-    return used
+    return _report(ctx, rule, [(s["key"], s) for s in sites], exceptions,
+                   lambda s: "float division whose divisor `%s` is not shown non-zero by a constant, a clamp or a dominating comparison: "
+                             "inf/NaN result when it is zero" % s["desc"][:120])
 
 
 def report_loops(ctx, rule, prog, seen, include, loop_exceptions, custom_iter_ok):
